@@ -21,6 +21,10 @@ ASSUMPTIONS = ["BlockValue.size_exponent <= 7 for block values in the handler st
 
 
 def check(env, rep, tier):
+    include(rep, env, tier, "c08", ("C08.4",), "C09.8",
+            "'its response carries the Block1 acknowledgement': the acknowledgement put on the reply when the final block arrives is still "
+            "there when an over-size reply is fragmented - the handler removes no option, and rebuilding the reply from its cached copy "
+            "copies every option")
     include(rep, env, tier, "c12", ("C12.2",), "C09.7",
             "'blocks of one upload are collected in one buffer': the per-transfer key is exactly (endpoint, method, path) - nothing that "
             "differs between the blocks of one upload (token, message id) is part of it")
